@@ -161,7 +161,12 @@ func cmdDrive(args []string) {
 			e.run(Call{Op: "Build", Dst: i + 1, As: ga, Rcp: pick(r, rc)})
 		}
 		for s := 0; s < *steps; s++ {
-			e.run(g.next(e))
+			c := g.next(e)
+			e.run(c)
+			if (c.Op == "DenseRT" || c.Op == "BitSetRT" || c.Op == "FlipS" || c.Op == "AddOffset") && c.Dst > 0 && *bits != 64 && r.Intn(2) == 0 {
+				// what a freshly derived bitmap (possibly aliasing caller memory) looks like on the wire
+				e.run(Call{Op: "Ser", X: c.Dst, V: r.Intn(4)})
+			}
 		}
 		cv.Traces++
 		cv.Events += e.events
@@ -885,7 +890,7 @@ func driveAggKernel(r *rand.Rand, w *bufio.Writer, id int, cv *coverOut) {
 	u.Name = "aggkernel"
 	e := newExec(u, w, id, r.Int63())
 	e.begin()
-	rc := []string{"R", "Ro", "Ro", "M", "Mo", "Rc", "Rok", "A"}
+	rc := []string{"R", "Ro", "Ro", "M", "Mo", "Rc", "Rok", "A", "Rz", "Rof"}
 	for i := range gs {
 		e.run(Call{Op: "Build", Dst: i + 1, As: gs[i], Rcp: pick(r, rc)})
 	}
@@ -945,7 +950,7 @@ func driveKernel(r *rand.Rand, w *bufio.Writer, id int, cv *coverOut) {
 	u.Name = "kernel"
 	e := newExec(u, w, id, r.Int63())
 	e.begin()
-	rc := []string{"R", "Ro", "M", "Mo", "Rc", "Rok", "Rz", "Rof"}
+	rc := []string{"R", "Ro", "M", "Mo", "Rc", "Rok", "Rz", "Rof", "Mz", "Rou"}
 	e.run(Call{Op: "Build", Dst: 1, As: ga, Rcp: pick(r, rc)})
 	e.run(Call{Op: "Build", Dst: 2, As: gb, Rcp: pick(r, rc)})
 	ops := []string{"And", "Or", "Xor", "AndNot"}
